@@ -196,17 +196,228 @@ theorem vars_buildOr (l : List Formula) : ∀ v ∈ (buildOr l).vars, v ∈ Form
   · exact ⟨g, hg, hv⟩
   · exact ⟨_, hl', by simp only [Formula.vars, mem_varsList]; exact ⟨g, hg, hv⟩⟩
 
+
+/-! ### `sortByKey` under `map snd` -/
+
+theorem mem_sortByKey_snd (g : Formula) (l : List (Int × Formula)) :
+    g ∈ (sortByKey l).map (·.2) ↔ g ∈ l.map (·.2) :=
+  ((sortByKey_perm l).map _).mem_iff
+
+theorem evalAll_sortByKey_snd (τ : Assign) (l : List (Int × Formula)) :
+    evalAll τ ((sortByKey l).map (·.2)) = evalAll τ (l.map (·.2)) := by
+  rw [evalAll_eq_all, evalAll_eq_all]; exact ((sortByKey_perm l).map _).all_eq
+
+theorem evalAny_sortByKey_snd (τ : Assign) (l : List (Int × Formula)) :
+    evalAny τ ((sortByKey l).map (·.2)) = evalAny τ (l.map (·.2)) := by
+  rw [evalAny_eq_any, evalAny_eq_any]; exact ((sortByKey_perm l).map _).any_eq
+
+/-! ### `elimIff` -/
+
+theorem eval_elimIff_aux (τ : Assign) :
+    (∀ f, (elimIff f).eval τ = f.eval τ) ∧
+    (∀ l, evalAll τ (elimIffs l) = evalAll τ l ∧ evalAny τ (elimIffs l) = evalAny τ l) := by
+  apply elimIff.mutual_induct
+  · intro i; simp [elimIff]
+  · intro l ih; simp [elimIff, eval, ih.1]
+  · intro l ih; simp [elimIff, eval, ih.2]
+  · intro f ih; simp [elimIff, eval, ih]
+  · intro p q ihp ihq; simp [elimIff, eval, evalAny, ihp, ihq]
+  · intro p q ihp ihq
+    simp only [elimIff, eval, evalAll, evalAny, ihp, ihq]
+    cases eval τ p <;> cases eval τ q <;> rfl
+  · simp [elimIffs]
+  · intro f fs ihf ihfs; simp [elimIffs, evalAll, evalAny, ihf, ihfs.1, ihfs.2]
+
+theorem eval_elimIff (τ : Assign) (f : Formula) : (elimIff f).eval τ = f.eval τ :=
+  (eval_elimIff_aux τ).1 f
+
+theorem WF_elimIff_aux (n : Nat) :
+    (∀ f, f.WF n → (elimIff f).WF n) ∧ (∀ l, Formula.WFs n l → Formula.WFs n (elimIffs l)) := by
+  apply elimIff.mutual_induct
+  · intro i h; simpa [elimIff] using h
+  · intro l ih h; simp only [elimIff, Formula.WF] at h ⊢; exact ih h
+  · intro l ih h; simp only [elimIff, Formula.WF] at h ⊢; exact ih h
+  · intro f ih h; simp only [elimIff, Formula.WF] at h ⊢; exact ih h
+  · intro p q ihp ihq h
+    simp only [elimIff, Formula.WF, Formula.WFs] at h ⊢
+    exact ⟨ihp h.1, ihq h.2, trivial⟩
+  · intro p q ihp ihq h
+    simp only [elimIff, Formula.WF, Formula.WFs] at h ⊢
+    exact ⟨⟨ihp h.1, ihq h.2, trivial⟩, ⟨ihp h.1, ihq h.2, trivial⟩, trivial⟩
+  · intro _; simp [elimIffs, Formula.WFs]
+  · intro f fs ihf ihfs h
+    simp only [elimIffs, Formula.WFs] at h ⊢
+    exact ⟨ihf h.1, ihfs h.2⟩
+
+theorem WF_elimIff (n : Nat) (f : Formula) (h : f.WF n) : (elimIff f).WF n :=
+  (WF_elimIff_aux n).1 f h
+
+theorem NoImp_elimIff_aux :
+    (∀ f, (elimIff f).NoImp) ∧ (∀ l, Formula.NoImps (elimIffs l)) := by
+  apply elimIff.mutual_induct
+  · intro i; simp [elimIff, Formula.NoImp]
+  · intro l ih; simpa [elimIff, Formula.NoImp] using ih
+  · intro l ih; simpa [elimIff, Formula.NoImp] using ih
+  · intro f ih; simpa [elimIff, Formula.NoImp] using ih
+  · intro p q ihp ihq; simp [elimIff, Formula.NoImp, Formula.NoImps, ihp, ihq]
+  · intro p q ihp ihq; simp [elimIff, Formula.NoImp, Formula.NoImps, ihp, ihq]
+  · simp [elimIffs, Formula.NoImps]
+  · intro f fs ihf ihfs; simp [elimIffs, Formula.NoImps, ihf, ihfs]
+
+theorem NoImp_elimIff (f : Formula) : (elimIff f).NoImp := NoImp_elimIff_aux.1 f
+
+theorem vars_elimIff_aux :
+    (∀ f, ∀ v ∈ (elimIff f).vars, v ∈ f.vars) ∧
+    (∀ l, ∀ v ∈ Formula.varsList (elimIffs l), v ∈ Formula.varsList l) := by
+  apply elimIff.mutual_induct
+  · intro i v h; simpa [elimIff] using h
+  · intro l ih v h; simp only [elimIff, Formula.vars] at h ⊢; exact ih v h
+  · intro l ih v h; simp only [elimIff, Formula.vars] at h ⊢; exact ih v h
+  · intro f ih v h; simp only [elimIff, Formula.vars] at h ⊢; exact ih v h
+  · intro p q ihp ihq v h
+    simp only [elimIff, Formula.vars, Formula.varsList, List.append_nil, List.mem_append] at h ⊢
+    exact h.imp (ihp v) (ihq v)
+  · intro p q ihp ihq v h
+    simp only [elimIff, Formula.vars, Formula.varsList, List.append_nil, List.mem_append] at h ⊢
+    rcases h with (h | h) | (h | h)
+    · exact .inl (ihp v h)
+    · exact .inr (ihq v h)
+    · exact .inl (ihp v h)
+    · exact .inr (ihq v h)
+  · intro v h; simpa [elimIffs] using h
+  · intro f fs ihf ihfs v h
+    simp only [elimIffs, Formula.varsList, List.mem_append] at h ⊢
+    exact h.imp (ihf v) (ihfs v)
+
+theorem vars_elimIff (f : Formula) : ∀ v ∈ (elimIff f).vars, v ∈ f.vars := vars_elimIff_aux.1 f
+
+/-! ### `demorgan` -/
+
+theorem eval_demorgan_aux (τ : Assign) :
+    (∀ b g, g.NoImp → (demorgan b g).eval τ = (b ^^ g.eval τ)) ∧
+    (∀ b l, Formula.NoImps l →
+      evalAll τ ((demorgans b l).map (·.2)) = (if b then !evalAny τ l else evalAll τ l) ∧
+      evalAny τ ((demorgans b l).map (·.2)) = (if b then !evalAll τ l else evalAny τ l)) := by
+  apply demorgan.mutual_induct
+  · intro i _; simp [demorgan]
+  · intro i _; simp [demorgan, eval]
+  · intro l ih h
+    simp only [Formula.NoImp] at h
+    simp [demorgan, eval_buildAnd, eval, (ih h).1]
+  · intro l ih h
+    simp only [Formula.NoImp] at h
+    simp [demorgan, eval_buildOr, eval, (ih h).2]
+  · intro l ih h
+    simp only [Formula.NoImp] at h
+    simp [demorgan, eval_buildOr, eval, evalAny_sortByKey_snd, (ih h).2]
+  · intro l ih h
+    simp only [Formula.NoImp] at h
+    simp [demorgan, eval_buildAnd, eval, evalAll_sortByKey_snd, (ih h).1]
+  · intro neg f ih h
+    simp only [Formula.NoImp] at h
+    simp only [demorgan, eval, ih h]
+    cases neg <;> cases eval τ f <;> rfl
+  · intro _ p q h; simp [Formula.NoImp] at h
+  · intro _ p q h; simp [Formula.NoImp] at h
+  · intro b _; cases b <;> simp [demorgans, evalAll, evalAny]
+  · intro b f fs ihf ihfs h
+    simp only [Formula.NoImps] at h
+    simp only [demorgans, List.map_cons, evalAll, evalAny, ihf h.1, (ihfs h.2).1, (ihfs h.2).2]
+    cases b <;> simp
+
+theorem eval_demorgan (τ : Assign) (b : Bool) (g : Formula) (h : g.NoImp) :
+    (demorgan b g).eval τ = (b ^^ g.eval τ) := (eval_demorgan_aux τ).1 b g h
+
+theorem WF_demorgan_aux (n : Nat) :
+    (∀ b g, g.WF n → (demorgan b g).WF n) ∧
+    (∀ b l, Formula.WFs n l → ∀ g ∈ (demorgans b l).map (·.2), g.WF n) := by
+  apply demorgan.mutual_induct
+  · intro i h; simpa [demorgan] using h
+  · intro i h; simpa [demorgan, Formula.WF] using h
+  · intro l ih h; simp only [demorgan]; exact WF_buildAnd n _ (ih h)
+  · intro l ih h; simp only [demorgan]; exact WF_buildOr n _ (ih h)
+  · intro l ih h; simp only [demorgan]
+    exact WF_buildOr n _ (fun g hg => ih h g ((mem_sortByKey_snd g _).1 hg))
+  · intro l ih h; simp only [demorgan]
+    exact WF_buildAnd n _ (fun g hg => ih h g ((mem_sortByKey_snd g _).1 hg))
+  · intro neg f ih h; simp only [demorgan]; exact ih h
+  · intro _ p q h; simpa [demorgan] using h
+  · intro _ p q h; simpa [demorgan] using h
+  · intro _ _ g hg; simp [demorgans] at hg
+  · intro b f fs ihf ihfs h g hg
+    simp only [Formula.WFs] at h
+    simp only [demorgans, List.map_cons, List.mem_cons] at hg
+    rcases hg with rfl | hg
+    · exact ihf h.1
+    · exact ihfs h.2 g hg
+
+theorem WF_demorgan (n : Nat) (b : Bool) (g : Formula) (h : g.WF n) : (demorgan b g).WF n :=
+  (WF_demorgan_aux n).1 b g h
+
+theorem Shape_demorgan_aux :
+    (∀ b g, g.NoImp → (demorgan b g).Shape) ∧
+    (∀ b l, Formula.NoImps l → ∀ g ∈ (demorgans b l).map (·.2), g.Shape) := by
+  apply demorgan.mutual_induct
+  · intro i _; simp [demorgan, Formula.Shape]
+  · intro i _; simp [demorgan, Formula.Shape, Formula.isLit]
+  · intro l ih h; simp only [demorgan]; exact Shape_buildAnd _ (ih h)
+  · intro l ih h; simp only [demorgan]; exact Shape_buildOr _ (ih h)
+  · intro l ih h; simp only [demorgan]
+    exact Shape_buildOr _ (fun g hg => ih h g ((mem_sortByKey_snd g _).1 hg))
+  · intro l ih h; simp only [demorgan]
+    exact Shape_buildAnd _ (fun g hg => ih h g ((mem_sortByKey_snd g _).1 hg))
+  · intro neg f ih h; simp only [demorgan]; exact ih h
+  · intro _ p q h; simp [Formula.NoImp] at h
+  · intro _ p q h; simp [Formula.NoImp] at h
+  · intro _ _ g hg; simp [demorgans] at hg
+  · intro b f fs ihf ihfs h g hg
+    simp only [Formula.NoImps] at h
+    simp only [demorgans, List.map_cons, List.mem_cons] at hg
+    rcases hg with rfl | hg
+    · exact ihf h.1
+    · exact ihfs h.2 g hg
+
+theorem Shape_demorgan (b : Bool) (g : Formula) (h : g.NoImp) : (demorgan b g).Shape :=
+  Shape_demorgan_aux.1 b g h
+
+theorem vars_demorgan_aux :
+    (∀ b g, ∀ v ∈ (demorgan b g).vars, v ∈ g.vars) ∧
+    (∀ b l, ∀ v ∈ Formula.varsList ((demorgans b l).map (·.2)), v ∈ Formula.varsList l) := by
+  apply demorgan.mutual_induct
+  · intro i v h; simpa [demorgan] using h
+  · intro i v h; simpa [demorgan, Formula.vars] using h
+  · intro l ih v h; simp only [demorgan] at h; exact ih v (vars_buildAnd _ v h)
+  · intro l ih v h; simp only [demorgan] at h; exact ih v (vars_buildOr _ v h)
+  · intro l ih v h; simp only [demorgan] at h
+    have := vars_buildOr _ v h
+    simp only [mem_varsList, mem_sortByKey_snd] at this
+    exact ih v ((mem_varsList v _).2 this)
+  · intro l ih v h; simp only [demorgan] at h
+    have := vars_buildAnd _ v h
+    simp only [mem_varsList, mem_sortByKey_snd] at this
+    exact ih v ((mem_varsList v _).2 this)
+  · intro neg f ih v h; simp only [demorgan] at h; exact ih v h
+  · intro _ p q v h; simpa [demorgan] using h
+  · intro _ p q v h; simpa [demorgan] using h
+  · intro _ v h; simp [demorgans, Formula.varsList] at h
+  · intro b f fs ihf ihfs v h
+    simp only [demorgans, List.map_cons, Formula.varsList, List.mem_append] at h ⊢
+    exact h.imp (ihf v) (ihfs v)
+
+theorem vars_demorgan (b : Bool) (g : Formula) : ∀ v ∈ (demorgan b g).vars, v ∈ g.vars :=
+  vars_demorgan_aux.1 b g
+
 /-- The negation normal form both conversions start from. -/
 theorem eval_nnf (τ : Assign) (f : Formula) : (demorgan false (elimIff f)).eval τ = f.eval τ := by
-  sorry
+  rw [eval_demorgan τ false _ (NoImp_elimIff f), eval_elimIff]; simp
 
-theorem WF_nnf (n : Nat) (f : Formula) (h : f.WF n) : (demorgan false (elimIff f)).WF n := by
-  sorry
+theorem WF_nnf (n : Nat) (f : Formula) (h : f.WF n) : (demorgan false (elimIff f)).WF n :=
+  WF_demorgan n false _ (WF_elimIff n f h)
 
-theorem Shape_nnf (f : Formula) : (demorgan false (elimIff f)).Shape := by
-  sorry
+theorem Shape_nnf (f : Formula) : (demorgan false (elimIff f)).Shape :=
+  Shape_demorgan false _ (NoImp_elimIff f)
 
-theorem vars_nnf (f : Formula) : ∀ v ∈ (demorgan false (elimIff f)).vars, v ∈ f.vars := by
-  sorry
+theorem vars_nnf (f : Formula) : ∀ v ∈ (demorgan false (elimIff f)).vars, v ∈ f.vars :=
+  fun v h => vars_elimIff f v (vars_demorgan false _ v h)
 
 end SPModel
